@@ -5,7 +5,9 @@ sys.path.insert(0, os.path.dirname(os.path.abspath(__file__)))
 from obligations import PROPERTIES
 na = json.load(open('not_applicable.json'))
 checks = []
+CLAIMED = json.load(open('claimed.json'))
 for pid in sorted(PROPERTIES):
+    if pid not in CLAIMED: continue
     P = PROPERTIES[pid]
     checks.append({
         'property_id': pid,
@@ -24,10 +26,10 @@ m = {
  'hooks': {'guard': 'MANIFOLD_VERIF', 'enable': 'harness TUs are compiled by clang++-14 with -DMANIFOLD_VERIF=1 directly from /repo/src and /repo/include (no library build is needed)',
            'baseline_off_cmd': 'cmake --build /repo/_build && ctest --test-dir /repo/_build -j8 --timeout 900',
            'source_commits': json.load(open('hooks.json'))['source_commits'], 'add_only': True},
- 'engines': [{'name': 'ir2c-cbmc', 'path': 'engine/', 'serves_properties': sorted(PROPERTIES),
+ 'engines': [{'name': 'ir2c-cbmc', 'path': 'engine/', 'serves_properties': sorted(CLAIMED),
               'kind_free_text': 'clang-14 -O1 LLVM IR of harness TUs that #include the real sources -> engine/ir2c.py (IR->C) -> cbmc 6.11 (minisat/cadical/kissat), witness twins for vacuity, native ASan/UBSan replay of counterexamples'}],
  'checks': checks,
- 'not_applicable': [x for x in na if x['property_id'] not in PROPERTIES],
+ 'not_applicable': [x for x in na if x['property_id'] not in CLAIMED],
  'notes': 'Every verdict is bounded: see evidence/<id>.json coverage.samples[*].bounds and DESIGN.md. Exit 2 = inconclusive (timeout, harness no longer builds, counterexample not reproduced natively); it never prints a VIOLATION line.',
 }
 json.dump(m, open('MANIFEST.json', 'w'), indent=1)
